@@ -87,12 +87,49 @@ func c02Auth(name string) runtime.Authenticator {
 	})
 }
 
-func c02Desc(si int, global bool) vAPIDesc {
+// c02Perms lists the evaluation orders of n schemes (n ≤ 3: all of them).
+func c02Perms(n int) [][]int {
+	switch n {
+	case 0:
+		return [][]int{{}}
+	case 1:
+		return [][]int{{0}}
+	case 2:
+		return [][]int{{0, 1}, {1, 0}}
+	}
+	return [][]int{{0, 1, 2}, {0, 2, 1}, {1, 0, 2}, {1, 2, 0}, {2, 0, 1}, {2, 1, 0}}
+}
+
+// c02Orders lists, for structure si, every assignment of an evaluation order to
+// each of its alternatives.
+func c02Orders(si int) [][][]int {
+	res := [][][]int{{}}
+	for _, alt := range c02Structs[si] {
+		var next [][][]int
+		for _, pre := range res {
+			for _, p := range c02Perms(len(alt)) {
+				next = append(next, append(append([][]int{}, pre...), p))
+			}
+		}
+		res = next
+	}
+	return res
+}
+
+// c02Desc describes structure si; the scheme names of every alternative are
+// inserted into the requirement map in the order ord gives. The order in which
+// the schemes of an alternative are consulted is the iteration order of that
+// map (analysis.SecurityRequirementsFor ranges over it): under the engine, whose
+// maps iterate in insertion order, ord therefore is the evaluation order, and
+// every evaluation order is explored by drawing ord; the native build iterates
+// from a random start, so there ord is only the most likely order.
+func c02Desc(si int, global bool, ord [][]int) vAPIDesc {
 	st := c02Structs[si]
 	var reqs []map[string][]string
-	for _, alt := range st {
+	for ai, alt := range st {
 		m := map[string][]string{}
-		for _, r := range alt {
+		for _, k := range ord[ai] {
+			r := alt[k]
 			sc := r.scopes
 			if sc == nil {
 				sc = []string{}
@@ -123,8 +160,8 @@ type c02Setup struct {
 	handler http.Handler
 }
 
-func c02Build(si int, global, withAuthorizer bool) *c02Setup {
-	d := c02Desc(si, global)
+func c02Build(si int, global, withAuthorizer bool, ord [][]int) *c02Setup {
+	d := c02Desc(si, global, ord)
 	doc := vDoc(vSwagger(d))
 	api := untyped.NewAPI(doc)
 	for _, n := range []string{"a", "b", "c"} {
@@ -160,20 +197,138 @@ func c02Build(si int, global, withAuthorizer bool) *c02Setup {
 	return &c02Setup{ctx: ctx, handler: h}
 }
 
-// VerifC02Security drives the real untyped stack (router → secure API →
-// binder → handler) with scripted authenticators and authorizer.
-func VerifC02Security() {
-	si := zv.Choose("structure", zv.Param("structs", len(c02Structs)))
-	global := zv.Choose("global", 2) == 1
-	withAuthz := zv.Choose("authorizer", 2) == 1
-	key := "c02-" + string(rune('a'+si))
+// c02Verdict is what the requirement structure prescribes for one evaluation
+// order of the schemes inside each alternative.
+type c02Verdict struct {
+	admitted, anonymous, anyReject bool
+	princ                          interface{}
+	scopes                         []string
+	rejecters                      []string
+}
+
+// c02Oracle evaluates the requirement structure declaratively: OR over the
+// alternatives in their listed order, AND over the schemes of an alternative in
+// the evaluation order ord[alternative] (the first scheme that does not apply or
+// rejects ends the alternative: later schemes are not consulted).
+func c02Oracle(si int, ord [][]int) (v c02Verdict) {
+	st := c02Structs[si]
+	hasAnon := false
+	for ai, alt := range st {
+		if len(alt) == 0 {
+			hasAnon = true
+			continue
+		}
+		if v.admitted {
+			break // later alternatives are not consulted
+		}
+		ok := true
+		var last interface{}
+		for _, k := range ord[ai] {
+			rq := alt[k]
+			if rq.name == "u" {
+				ok = false // no registered authenticator: cannot find credentials
+				break
+			}
+			switch c02S.outcome[rq.name] {
+			case c02NotApplicable:
+				ok = false
+			case c02Reject:
+				ok = false
+				v.anyReject = true
+				v.rejecters = append(v.rejecters, rq.name)
+			case c02Accept:
+				last = "principal-" + rq.name
+			case c02AcceptNil:
+				last = nil
+			}
+			if !ok {
+				break
+			}
+		}
+		if ok && last != nil {
+			v.admitted = true
+			v.princ = last
+			seen := map[string]bool{}
+			for _, rq := range alt {
+				for _, s := range rq.scopes {
+					if !seen[s] {
+						seen[s] = true
+						v.scopes = append(v.scopes, s)
+					}
+				}
+			}
+		}
+	}
+	if !v.admitted && hasAnon && !v.anyReject {
+		v.admitted, v.anonymous = true, true
+	}
+	return
+}
+
+// The order in which the schemes of an alternative are consulted is a map
+// iteration order that the code under test does not fix and that the harness
+// cannot observe from outside (natively it is random per built router). What is
+// observed therefore has to be what the structure prescribes for SOME evaluation
+// order of every alternative: c02Pick returns the verdict of the first order
+// assignment whose judgement accepts the observation; when none does, the verdict
+// of the drawn order is returned and the labelled assertions report against it.
+func c02Pick(si int, drawn [][]int, judge func(v c02Verdict, check func(string, bool), reach func(string))) c02Verdict {
+	for _, ord := range c02Orders(si) {
+		v := c02Oracle(si, ord)
+		ok := true
+		judge(v, func(_ string, cond bool) {
+			if !cond {
+				ok = false
+			}
+		}, func(string) {})
+		if ok {
+			return v
+		}
+	}
+	return c02Oracle(si, drawn)
+}
+
+// c02RejectionsAccounted: the schemes that were consulted and rejected the
+// credentials presented (an observation: the scripted authenticators log their
+// calls) are exactly the rejections of the evaluation the verdict stands for. A
+// request on which a consulted scheme rejected credentials is thus never judged
+// by an evaluation order in which that scheme would not have been asked.
+func c02RejectionsAccounted(v c02Verdict) bool {
+	seen := map[string]bool{}
+	for _, n := range c02S.calls {
+		if c02S.outcome[n] == c02Reject {
+			seen[n] = true
+		}
+	}
+	for _, n := range v.rejecters {
+		if !seen[n] {
+			return false
+		}
+		delete(seen, n)
+	}
+	return len(seen) == 0
+}
+
+func c02Key(si, oi int, global, withAuthz bool) string {
+	key := "c02-" + string(rune('a'+si)) + string(rune('0'+oi))
 	if global {
 		key += "g"
 	}
 	if withAuthz {
 		key += "z"
 	}
-	su := zv.Cached(key, func() interface{} { return c02Build(si, global, withAuthz) }).(*c02Setup)
+	return key
+}
+
+// VerifC02Security drives the real untyped stack (router → secure API →
+// binder → handler) with scripted authenticators and authorizer.
+func VerifC02Security() {
+	si := zv.Choose("structure", zv.Param("structs", len(c02Structs)))
+	orders := c02Orders(si)
+	oi := zv.Choose("scheme-order", len(orders))
+	global := zv.Choose("global", 2) == 1
+	withAuthz := zv.Choose("authorizer", 2) == 1
+	su := zv.Cached(c02Key(si, oi, global, withAuthz), func() interface{} { return c02Build(si, global, withAuthz, orders[oi]) }).(*c02Setup)
 	vRec = &vRecorder{}
 	c02S = &c02Script{outcome: map[string]int{}, scopesSeen: map[string][]string{}}
 	for _, n := range []string{"a", "b", "c"} {
@@ -190,119 +345,72 @@ func VerifC02Security() {
 	rw := vNewWriter()
 	su.handler.ServeHTTP(rw, r)
 
-	admitted, anonymous, anyReject, princ, admitScopes := c02Oracle(si)
-	authzDenied := admitted && withAuthz && c02S.authz != 0
-
-	if admitted && !authzDenied && !otherwiseValid {
-		// admitted, but the request is wrong otherwise: now that is what is reported
-		zv.Reach("admitted-but-invalid")
-		zv.Assert("handler-does-not-run-on-an-invalid-request", c02S.handlerRan == 0)
-		ce, is422 := vRec.servedErr.(*errors.CompositeError)
-		zv.Assert("binding-error-reported-after-admission", vRec.errCount == 1 && is422 && ce.Code() == 422)
-		return
-	}
-	if !(admitted && !authzDenied) {
-		// refused: whatever else is wrong with the request, the refusal is the security one
-		_, is422 := vRec.servedErr.(*errors.CompositeError)
-		zv.Assert("refusal-precedes-parameter-binding", !is422)
-	}
-	if admitted && !authzDenied {
-		zv.Reach("admitted")
-		zv.Assert("handler-runs-when-an-alternative-is-satisfied", c02S.handlerRan == 1)
-		zv.Assert("no-error-response-when-admitted", vRec.errCount == 0)
-		if withAuthz {
-			zv.Assert("authorizer-consulted-once", c02S.authzCalls == 1)
-			if !anonymous {
-				zv.Assert("authorizer-sees-the-alternatives-principal", c02S.authzPrinc == princ)
-			}
+	judge := func(v c02Verdict, check func(string, bool), reach func(string)) {
+		check("observed-rejections-are-those-of-the-evaluation", c02RejectionsAccounted(v))
+		authzDenied := v.admitted && withAuthz && c02S.authz != 0
+		if v.admitted && !authzDenied && !otherwiseValid {
+			// admitted, but the request is wrong otherwise: now that is what is reported
+			reach("admitted-but-invalid")
+			check("handler-does-not-run-on-an-invalid-request", c02S.handlerRan == 0)
+			ce, is422 := vRec.servedErr.(*errors.CompositeError)
+			check("binding-error-reported-after-admission", vRec.errCount == 1 && is422 && ce.Code() == 422)
+			return
 		}
-	} else {
-		zv.Reach("refused")
-		zv.Assert("handler-does-not-run-when-refused", c02S.handlerRan == 0)
-		zv.Assert("error-responder-called-once", vRec.errCount == 1)
+		if !(v.admitted && !authzDenied) {
+			// refused: whatever else is wrong with the request, the refusal is the security one
+			_, is422 := vRec.servedErr.(*errors.CompositeError)
+			check("refusal-precedes-parameter-binding", !is422)
+		}
+		if v.admitted && !authzDenied {
+			reach("admitted")
+			check("handler-runs-when-an-alternative-is-satisfied", c02S.handlerRan == 1)
+			check("no-error-response-when-admitted", vRec.errCount == 0)
+			if withAuthz {
+				check("authorizer-consulted-once", c02S.authzCalls == 1)
+				if !v.anonymous {
+					check("authorizer-sees-the-alternatives-principal", c02S.authzPrinc == v.princ)
+				}
+			}
+			return
+		}
+		reach("refused")
+		check("handler-does-not-run-when-refused", c02S.handlerRan == 0)
+		check("error-responder-called-once", vRec.errCount == 1)
 		e, isAPIErr := vRec.servedErr.(errors.Error)
-		zv.Assert("error-has-a-status", isAPIErr)
+		check("error-has-a-status", isAPIErr)
 		if isAPIErr {
 			switch {
 			case authzDenied && c02S.authz == 1:
-				zv.Reach("authz-own-status")
-				zv.Assert("authorizer-error-kept", e.Code() == 418)
+				reach("authz-own-status")
+				check("authorizer-error-kept", e.Code() == 418)
 			case authzDenied:
-				zv.Reach("authz-403")
-				zv.Assert("authorizer-plain-error-is-403", e.Code() == http.StatusForbidden)
-			case anyReject:
-				zv.Reach("rejected")
-				zv.Assert("rejecting-scheme-error", e == errC02["a"] || e == errC02["b"] || e == errC02["c"])
-			default:
-				zv.Reach("401")
-				zv.Assert("401-when-no-alternative-applied", e.Code() == http.StatusUnauthorized)
-			}
-		}
-	}
-	_ = admitScopes
-}
-
-
-// c02Oracle evaluates the requirement structure declaratively.
-func c02Oracle(si int) (admitted, anonymous, anyReject bool, princ interface{}, admitScopes []string) {
-	// ---- oracle: OR of ANDs ----
-	st := c02Structs[si]
-	hasAnon := false
-	for _, alt := range st {
-		if len(alt) == 0 {
-			hasAnon = true
-			continue
-		}
-		if admitted {
-			break // later alternatives are not consulted
-		}
-		ok := true
-		var last interface{}
-		for _, rq := range alt {
-			if rq.name == "u" {
-				ok = false // no registered authenticator: cannot find credentials
-				break
-			}
-			switch c02S.outcome[rq.name] {
-			case c02NotApplicable:
-				ok = false
-			case c02Reject:
-				ok = false
-				anyReject = true
-			case c02Accept:
-				last = "principal-" + rq.name
-			case c02AcceptNil:
-				last = nil
-			}
-			if !ok {
-				break
-			}
-		}
-		if ok && last != nil {
-			admitted = true
-			princ = last
-			seen := map[string]bool{}
-			for _, rq := range alt {
-				for _, s := range rq.scopes {
-					if !seen[s] {
-						seen[s] = true
-						admitScopes = append(admitScopes, s)
+				reach("authz-403")
+				check("authorizer-plain-error-is-403", e.Code() == http.StatusForbidden)
+			case v.anyReject:
+				reach("rejected")
+				mine := false
+				for _, n := range v.rejecters {
+					if e == errC02[n] {
+						mine = true
 					}
 				}
+				check("rejecting-scheme-error", mine)
+			default:
+				reach("401")
+				check("401-when-no-alternative-applied", e.Code() == http.StatusUnauthorized)
 			}
 		}
 	}
-	if !admitted && hasAnon && !anyReject {
-		admitted, anonymous = true, true
-	}
-	return
+	judge(c02Pick(si, orders[oi], judge), func(l string, c bool) { zv.Assert(l, c) }, func(l string) { zv.Reach(l) })
 }
 
 // VerifC02Authorize: what a handler can read (principal, scopes) comes from the
 // satisfied alternative.
 func VerifC02Authorize() {
 	si := zv.Choose("structure", zv.Param("structs", len(c02Structs)))
-	su := zv.Cached("c02-"+string(rune('a'+si)), func() interface{} { return c02Build(si, false, false) }).(*c02Setup)
+	orders := c02Orders(si)
+	oi := zv.Choose("scheme-order", len(orders))
+	su := zv.Cached(c02Key(si, oi, false, false), func() interface{} { return c02Build(si, false, false, orders[oi]) }).(*c02Setup)
 	vRec = &vRecorder{}
 	c02S = &c02Script{outcome: map[string]int{}, scopesSeen: map[string][]string{}}
 	for _, n := range []string{"a", "b", "c"} {
@@ -315,37 +423,40 @@ func VerifC02Authorize() {
 		return
 	}
 	pr, r3, err := su.ctx.Authorize(r2, route)
-	admitted, anonymous, _, princ, scopes := c02Oracle(si)
-	if admitted {
-		zv.Reach("admitted")
-		zv.Assert("authorize-succeeds", err == nil && r3 != nil)
+	judge := func(v c02Verdict, check func(string, bool), reach func(string)) {
+		check("observed-rejections-are-those-of-the-evaluation", c02RejectionsAccounted(v))
+		if !v.admitted {
+			reach("refused")
+			check("authorize-fails", err != nil)
+			check("no-principal-on-refusal", pr == nil)
+			return
+		}
+		reach("admitted")
+		check("authorize-succeeds", err == nil && r3 != nil)
 		if err != nil || r3 == nil {
 			return
 		}
-		if anonymous {
-			zv.Assert("anonymous-has-no-principal", pr == nil && SecurityPrincipalFrom(r3) == nil)
+		if v.anonymous {
+			check("anonymous-has-no-principal", pr == nil && SecurityPrincipalFrom(r3) == nil)
 			return
 		}
-		zv.Assert("principal-returned", pr == princ)
-		zv.Assert("principal-readable-by-handler", SecurityPrincipalFrom(r3) == princ)
+		check("principal-returned", pr == v.princ)
+		check("principal-readable-by-handler", SecurityPrincipalFrom(r3) == v.princ)
 		got := SecurityScopesFrom(r3)
-		zv.Assert("scopes-count", len(got) == len(scopes))
-		for k := range scopes {
+		check("scopes-count", len(got) == len(v.scopes))
+		for k := range v.scopes {
 			if k < len(got) {
-				zv.Assert("scopes-of-the-satisfied-alternative", got[k] == scopes[k])
+				check("scopes-of-the-satisfied-alternative", got[k] == v.scopes[k])
 			}
 		}
 		// required scopes handed to each consulted authenticator are its own
 		for _, alt := range c02Structs[si] {
 			for _, rq := range alt {
 				if seen, ok := c02S.scopesSeen[rq.name]; ok {
-					zv.Assert("scheme-sees-its-required-scopes", len(seen) == len(rq.scopes))
+					check("scheme-sees-its-required-scopes", len(seen) == len(rq.scopes))
 				}
 			}
 		}
-	} else {
-		zv.Reach("refused")
-		zv.Assert("authorize-fails", err != nil)
-		zv.Assert("no-principal-on-refusal", pr == nil)
 	}
+	judge(c02Pick(si, orders[oi], judge), func(l string, c bool) { zv.Assert(l, c) }, func(l string) { zv.Reach(l) })
 }
